@@ -179,6 +179,13 @@ def make_family(log):
             self._l('Who', None)
             return 'nobody'
 
+        # an ordinary override, without repeating the decorator, of a
+        # method the base class bound by decorator: the override is what
+        # runs for a Derived object
+        def only2(self):
+            self._l('Only2@override')
+            return 'only2-override'
+
         # the same interface as the base class binds other members of
         @O.dbusMethod('org.ex.I2', 'More')
         def more_derived(self):
@@ -366,6 +373,9 @@ def _outcome(obj, iface, member, arg):
         # only covers bound implementations - one error reply, no user code
         return (None, ('err', None, None))
     if member == 'Only2':
+        if name == 'derived':
+            return ((name, 'Only2@override'), ('ret', 's',
+                                                ['only2-override']))
         return ((name, 'Only2'), ('ret', 's', ['only2']))
     if member == 'More':
         return ((name, 'More@' + ('derived' if obj == 'derived' else 'base')),
@@ -635,7 +645,8 @@ def _task_deferred(_):
 def run(ctx):
     pool = call_pool(ctx.quick)
     ctx.rule = (
-        'object family built fresh per execution: dbus_<name> bindings, one '
+        'object family built fresh per execution: dbus_<name> bindings, an '
+        'undecorated override of a decorator-bound base method, one '
         'member on two interfaces bound by decorator, a derived class adding '
         'an interface and decorating another member of an interface its base '
         'class also decorates, dbusCaller methods, signatures "", s, ii, '
